@@ -828,8 +828,8 @@ def write(out: Path, make):
         text = make()
     except Reject as ex:
         print(f"gen_source_heap: REJECTED ({out.name}): {ex}", file=sys.stderr)
-        if out.exists():
-            out.unlink()
+        from gen_source import write_stub
+        write_stub(out, str(ex))
         return 2
     if not out.exists() or out.read_text() != text:
         out.parent.mkdir(parents=True, exist_ok=True)
